@@ -342,7 +342,7 @@ def run(chk: vlib.Check):
             cand = [i for i, rp in enumerate(replays)
                     if any(o["op"] == "gc" for o in rp["ops"][:-1]) and rp["ops"][-1]["op"] in ("lookup", "call", "retain")]
             rng.shuffle(cand)
-            cand = sorted(cand[: (2500 if tier == "quick" else 15000)])
+            cand = sorted(cand[: (2500 if tier == "quick" else 6000)])
             vobs = run_harness(binp, program, capacity, [replays[i] for i in cand], chk, valgrind=True)
             chk.cov["valgrind_replays"] = chk.cov.get("valgrind_replays", 0) + len(cand)
             ub = [(cand[j], o) for j, o in enumerate(vobs) if o["ops"] and o["ops"][-1].get("res", {}).get("t") == "ub"]
